@@ -133,7 +133,8 @@ Open Scope Q_scope.
 def evaluate(d, route, seed, npoints=2, numeric=True, lambda_backend=True):
     """build with pygom through `route`, evaluate; returns list of (point, order, pv) and first finding"""
     rng = np.random.default_rng(seed)
-    m, order = mg.build(d, route=route, rng=rng, lambda_backend=lambda_backend)
+    # every other case: the definition objects first go into a model that is thrown away (a definition can be reused)
+    m, order = mg.build(d, route=route, rng=rng, lambda_backend=lambda_backend, reuse=bool(seed % 2 == 0))
     res, finding = [], None
     for _ in range(npoints):
         pt = mg.random_point(rng, d)
